@@ -487,6 +487,19 @@ class Generator(TreeListener):
 
             arg_names = [arg.name() for arg in args]
             free_vars = [e for e in free_vars if e.name() not in arg_names]
+            # Delayed expressions in the loop body have been replaced by their
+            # delay symbols, but may depend on symbols that occur nowhere else
+            # in the loop.
+            for k in indexed_symbols:
+                if k.name() in self.model.delay_states:
+                    delay_argument = self.model.delay_arguments[
+                        self.model.delay_states.index(k.name())
+                    ]
+                    known_names = arg_names + [e.name() for e in free_vars]
+                    for e in ca.symvar(ca.MX(delay_argument.expr)):
+                        if e.name() not in known_names:
+                            free_vars.append(e)
+                            known_names.append(e.name())
             all_args = args + free_vars
             F = ca.Function("loop_body", all_args, [expr])
 
